@@ -750,7 +750,7 @@ func (s *Sim) Shutdown() error {
 		signalRaw(g.wake)
 		select {
 		case <-s.poisonAck:
-		case <-time.After(20 * time.Second):
+		case <-time.After(180 * time.Second): // generous: only a guard against a goroutine wedged in native blocking code
 			err = fmt.Errorf("simrt: goroutine %s did not exit on shutdown (last site %s)", g.Name, g.LastSite)
 		}
 	}
